@@ -44,7 +44,7 @@ CLAIMS = {
                 'and withdraws leftovers unconditionally; Reactor.reload touches peers only after success. Also: Neighbor.__eq__ compares everything the OPEN is built from. Not decided: equality '
                 'of peer tables for arbitrary configuration pairs.'
                 ' Round 3: the rollback restores what _clear() saved (F48 fixed); every parse starts from a clean parser (F49 fixed); no section parser reaches a mutator of the shared RIB before the commit (known F50); the offline branch of Peer.reconfigure covers every state but ESTABLISHED.'
-                ' Round 4: tuple assignments and keyword arguments of the reload code are normalised before the rules run.',
+                ' Round 4: a reload leaves a route its watchdog holds back as it is (F74 fixed); tuple assignments and keyword arguments of the reload code are normalised before the rules run.',
         'note': _NOTE,
         'technique': 'must-pass-through on the CFG with exception edges, reachability after commit, def-use atoms of the re-announce decision',
     },
